@@ -421,7 +421,7 @@ class PkgGen:
         r = self.r
         lits = [("1", "int"), ("2.5", "float"), ('"s"', "str"), ("True", "bool"), ("None", "None")]
         rets = []
-        shape = r.choice(["single", "if", "try", "loop", "tuple", "cond", "cond", "with", "match", "uninferable"]
+        shape = r.choice(["single", "if", "try", "loop", "tuple", "cond", "cond", "with", "match", "uninferable", "static_cond"]
                          + (["two_tuples"] * 3 if self.ties else []))
         pick = lambda: r.choice(lits)
         if shape == "single":
@@ -431,6 +431,11 @@ class PkgGen:
             a, b = pick(), pick()
             rets = [[a], [b]]
             body = ["if len(str(0)) > 1:", f"    return {a[0]}", "else:", f"    return {b[0]}"]
+        elif shape == "static_cond":      # a condition the type checker decides statically: both branches still count
+            a, b = pick(), pick()
+            rets = [[a], [b]]
+            cond = r.choice(["TYPE_CHECKING", "not TYPE_CHECKING", "sys.platform == 'win32'", "sys.version_info >= (3, 99)"])
+            body = [f"if {cond}:", f"    return {a[0]}", "else:", f"    return {b[0]}"]
         elif shape == "try":
             a, b = pick(), pick()
             rets = [[a], [b]]
@@ -570,6 +575,18 @@ class PkgGen:
             order = [far, near] + ([keeps, overrides] if len(name) % 2 else [overrides, keeps])
             m["classes"] += order
             local += [(c["name"], c["qname"]) for c in order]
+        if self.style == "numpydoc" and self.docs > 0 and (len(name) + len(pkg_parts)) % 3 == 0 and "ZzBare" not in used:
+            # a class WITHOUT a docstring whose constructor documents its parameters (numpydoc reads those as a fallback)
+            used.add("ZzBare")
+            ps = [{"name": "zz_gamma", "kind": "POSITION_OR_NAME", "ann": ("int",), "default": None,
+                   "doc": self.marker("param zz_gamma"), "doc_type": None},
+                  {"name": "zz_delta", "kind": "POSITION_OR_NAME", "ann": ("str",), "default": ('"x"', "x"),
+                   "doc": self.marker("param zz_delta"), "doc_type": None}]
+            init = {"kind": "function", "name": "__init__", "method_kind": "instance", "params": ps, "ret": None, "returns": None,
+                    "doc": "", "result_doc": "", "is_property": False, "result_doc_type": None, "rest_type_first": True}
+            m["classes"].append({"kind": "class", "name": "ZzBare", "qname": f"{qn}.ZzBare", "bases": [], "attrs": [], "init": init,
+                                 "inst_attrs": [], "methods": [], "classes": [], "doc": "", "extras": {}})
+            local.append(("ZzBare", f"{qn}.ZzBare"))
         if r.random() < 0.25:
             en = self.names.pick(["Color", "Mode", "my_enum"], used, self.private_rate * 0.5)
             members = r.sample(["RED", "GREEN", "blue_value", "val_x"], r.choice([0, 1, 2, 3]))
@@ -763,7 +780,7 @@ def module_src(m, style: str) -> str:
     lines = []
     if m["doc"]:
         lines.append(f'"""{m["doc"]}"""')
-    lines += ["from __future__ import annotations", "from typing import Any, Callable, Literal, Optional, Union, overload",
+    lines += ["from __future__ import annotations", "import sys", "from typing import TYPE_CHECKING, Any, Callable, Literal, Optional, Union, overload",
               "from collections.abc import Collection, Mapping, Sequence", "from enum import Enum", ""]
     refs: set = set()
 
